@@ -14,6 +14,27 @@ import (
 // Parser can parse lua statements or expressions
 type Parser struct {
 	scanner Scanner
+	depth   int // current syntactic nesting depth, see maxNestingDepth
+}
+
+// The parser is a recursive descent parser and the compilation stages that
+// follow recurse on the syntax tree, so the syntactic nesting (blocks within
+// blocks, expressions within expressions) must be bounded: the Go stack is
+// finite and overflowing it aborts the whole process.  The reference
+// implementation has the same kind of limit (200 "C levels").
+const maxNestingDepth = 10000
+
+// enterLevel is called when starting to parse a nested construct (a block or
+// an operand), it must be paired with exitLevel.
+func (p *Parser) enterLevel(t *token.Token) {
+	p.depth++
+	if p.depth > maxNestingDepth {
+		panic(Error{Got: t, Message: "chunk has too many syntax levels"})
+	}
+}
+
+func (p *Parser) exitLevel() {
+	p.depth--
 }
 
 type Scanner interface {
@@ -24,11 +45,14 @@ type Scanner interface {
 type Error struct {
 	Got      *token.Token
 	Expected string
+	Message  string // if not empty, replaces the message derived from Expected
 }
 
 func (e Error) Error() string {
 	expected := e.Expected
-	if e.Got.Type == token.INVALID {
+	if e.Message != "" {
+		expected = e.Message
+	} else if e.Got.Type == token.INVALID {
 		expected = "invalid token: " + expected
 	} else if e.Got.Type == token.UNFINISHED {
 		expected = "unexpected <eof>"
@@ -59,7 +83,7 @@ func ParseExp(scanner Scanner) (exp ast.ExpNode, err error) {
 			}
 		}
 	}()
-	parser := &Parser{scanner}
+	parser := &Parser{scanner: scanner}
 	var t *token.Token
 	exp, t = parser.Exp(parser.Scan())
 	expectType(t, token.EOF, "<eof>")
@@ -79,7 +103,7 @@ func ParseChunk(scanner Scanner) (stat ast.BlockStat, err error) {
 			}
 		}
 	}()
-	parser := &Parser{scanner}
+	parser := &Parser{scanner: scanner}
 	var t *token.Token
 	stat, t = parser.Block(parser.Scan())
 	expectType(t, token.EOF, "<eof>")
@@ -278,6 +302,8 @@ func (p *Parser) FunctionStat(*token.Token) (ast.Stat, *token.Token) {
 // consumed. Returns the token that closes the block (e.g. "end"). So the caller
 // should check that this is the right kind of closing token.
 func (p *Parser) Block(t *token.Token) (ast.BlockStat, *token.Token) {
+	p.enterLevel(t)
+	defer p.exitLevel()
 	var stats []ast.Stat
 	var next ast.Stat
 	for {
@@ -357,6 +383,8 @@ func (p *Parser) Exp(t *token.Token) (ast.ExpNode, *token.Token) {
 // prefix expression or a power operation (right associatively composed). In
 // other words, any expression that doesn't contain a binary operator.
 func (p *Parser) ShortExp(t *token.Token) (ast.ExpNode, *token.Token) {
+	p.enterLevel(t)
+	defer p.exitLevel()
 	var exp ast.ExpNode
 	switch t.Type {
 	case token.KwNil:
